@@ -312,4 +312,4 @@ PROP = Prop(
                  "EER equivariance only for tie-free inputs (see C06)"],
 )
 
-RULE_EXTRA = ('thresholds held in float32/float16; per-group queries before swap() (GroupScores).')
+RULE_EXTRA = ('thresholds held in float32/float16; per-group queries before swap() (GroupScores). A class made of the two consecutive scores -1e308 / 1e308; a power of two and its lower neighbour in different classes under 3*s; clause swap_wide (64-bit integer scores beyond 2^53, long doubles).')
